@@ -10,6 +10,8 @@
 //! - Health integration traits for proactive resilience
 
 pub mod aimd;
+#[cfg(feature = "verif-hooks")]
+pub mod verif;
 pub mod error;
 pub mod events;
 
